@@ -68,6 +68,8 @@ def gen_div(r, nd=None, solve=False):
     if solve:
         nxg = [r.randint(2, 6 if nd == 2 else 4) for _ in range(nd)]
     w = [r.choice(WIDTHS_P2 + ([] if solve else WIDTHS_ANY)) for _ in range(nd)]
+    if nd == 3:      # every 3-D case has three different widths (a width used for the wrong direction must show)
+        w = r.sample(WIDTHS_P2 + ([] if solve else WIDTHS_ANY), 3)
     hs, sm, mins, fulls = gen_smooth(r)
     if solve:
         sm = False
@@ -101,8 +103,12 @@ def gen_atimes(r, nd=None):
     per = [int(r.random() < 0.5) for _ in range(nd)]
     hi = 6 if nd == 2 else 4
     nxp = [r.choice([2, 2, 3, r.randint(2, hi)]) for _ in range(nd)]
+    if nd == 2 and r.random() < 0.25:
+        nxp = [r.randint(2, 11) for _ in range(nd)]
     exact = r.random() < 0.8
     w = [r.choice(WIDTHS_P2 if exact else WIDTHS_ANY) for _ in range(nd)]
+    if nd == 3:
+        w = r.sample(WIDTHS_P2 if exact else WIDTHS_ANY, 3)
     nt = 1
     for n in nxp:
         nt *= n
@@ -526,8 +532,12 @@ def check(run):
                 run.violation("atimes:out-of-bounds", "atimes indexes its arrays outside the %d grid values: %s [case: %s]" % (len(c["x"]), io.split("|", 1)[1], l[:300]),
                               {"kind": "unit", "case": l, "impl": io})
         iox, ioy = iox.split("|")[0], ioy.split("|")[0]
-        tie("atimes", lx, iox, mox)
-        tie("atimes", ly, ioy, moy)
+        for (l, io, mo) in ((lx, iox, mox), (ly, ioy, moy)):
+            mparts = mo.split("|")
+            tie("atimes", l, io, mparts[0])
+            if len(mparts) > 1:      # 2-D: the loop-by-loop model of atimes, same flat array
+                if not same(parse_floats(io.split()[1:]), parse_floats(mparts[1].split())):
+                    run.mismatch("atimes-loops", l, io[:400], mparts[1][:400])
         Lx, Ly = parse_floats(iox.split()[1:]), parse_floats(ioy.split()[1:])
         if not (finite(Lx) and finite(Ly)):
             run.violation("atimes:not-finite", "atimes returned non-finite values for finite input [case: %s]" % lx[:300], {"kind": "unit", "case": lx, "case2": ly, "impl": iox})
@@ -535,8 +545,9 @@ def check(run):
         ex, ey = lap_oracle(c, c["x"]), lap_oracle(c, c["y"])
         for (l, io, got, exp) in ((lx, iox, Lx, ex), (ly, ioy, Ly, ey)):
             if len(got) != len(exp) or any(not close(g, float(e)) for g, e in zip(got, exp)):
-                run.violation("atimes:stencil", "atimes is not the documented Laplacian stencil: got %s expected %s [case: %s]"
-                              % (got[:9], [float(e) for e in exp[:9]], l[:400]), {"kind": "unit", "case": l, "impl": io})
+                badi = [k for k, (g, e) in enumerate(zip(got, exp)) if not close(g, float(e))][:6]
+                run.violation("atimes:stencil", "atimes is not the documented Laplacian stencil at flat index(es) %s: got %s expected %s [case: %s]"
+                              % (badi, [got[k] for k in badi], [float(exp[k]) for k in badi], l[:400]), {"kind": "unit", "case": l, "impl": io})
         if len(Lx) == len(c["x"]) and len(Ly) == len(c["y"]):
             xAy = sum(fr(a) * fr(b) for a, b in zip(c["x"], Ly))
             Axy = sum(fr(a) * fr(b) for a, b in zip(Lx, c["y"]))
@@ -598,11 +609,47 @@ def check(run):
             run.dist("solve:not-converged-in-%d" % itmax)
     run.sample({"solve_case": slines[0][:300], "impl": impl[pos - len(slines)][:300]})
 
-    # ---------------- degenerate shapes: one point in a periodic dimension (own process: the code indexes outside its arrays)
+    # ---------------- the energy b.x - x.Ax/2 (half the squared A-norm of the error, up to a constant) never increases
+    # from one iteration to the next (C16_cg_error_monotone): the solver is stopped after 1, 2, 3, 5, 8, 13 iterations
+    ecases = [c for c in scases if any(any(f) for _, f in c["ev"])][:(8 if quick else 60)]
+    its = [1, 2, 3, 5, 8, 13]
+    # (tolerance 1e-9: once the residual is at rounding level the quotients <r,r>/<Ap,p> are noise and the
+    # exact-arithmetic statement says nothing; the comparison stops when the solver has stopped by itself)
+    elines = [div_line(c, "SOLVE", " %d %s" % (k, V.hexf(1e-9))) for c in ecases for k in its]
+    rce, eout, ee = V.run_lines(unit, elines)
+    if len(eout) == len(elines):
+        for ci, c in enumerate(ecases):
+            nxp = [n if pe else n + 1 for n, pe in zip(c["nxg"], c["per"])]
+            prev, prev_k = 0.0, 0          # x = 0 initially
+            for ki, k in enumerate(its):
+                so = eout[ci * len(its) + ki]
+                p = split_bar(so)
+                b, x = parse_floats(p[1]), parse_floats(p[2])
+                if not finite(x):
+                    break
+                stopped = int(p[0][1]) < k
+                Ax = [float(v) for v in lap_oracle({"nd": c["nd"], "per": c["per"], "nxp": nxp, "w": c["w"]}, x)]
+                F = sum(u * v for u, v in zip(b, x)) - 0.5 * sum(u * v for u, v in zip(x, Ax))
+                scaleF = max(1.0, abs(F), abs(prev))
+                run.count(elines[ci * len(its) + ki], True)
+                if F > prev + 1e-9 * scaleF:
+                    run.violation("solve:energy-increases", "the energy b.x - x.Ax/2 went from %r after %d iterations to %r after %d: the error in the A-norm increased [case: %s]"
+                                  % (prev, prev_k, F, k, elines[ci * len(its) + ki][:300]), {"kind": "unit", "case": elines[ci * len(its) + ki], "impl": so[:2000]})
+                    break
+                prev, prev_k = F, k
+                if stopped:
+                    break
+        run.dist("solve:energy-monotone-cases", len(ecases))
+    else:
+        run.violation("unit:crash", "the C16 unit driver died in the energy stream (rc=%d): %s" % (rce, ee[-300:]), {"kind": "unit", "case": elines[len(eout)] if len(eout) < len(elines) else None})
+
+    # ---------------- degenerate shapes: one point in a periodic dimension (own process): the grid must be refused
+    # with an input error (constructor) and integrate() must not iterate; the model refuses the same shapes
     gcases = [gen_degenerate(r) for _ in range(12)]
     glines = [atimes_line(c, c["x"]) for c in gcases]
     for c, l in zip(gcases, glines):
         rcg, go, eg = V.run_lines(unit, [l])
+        rcm, gm, em = V.run_lines(model, [l])
         run.count(l, True)
         run.dist("atimes:degenerate")
         if len(go) != 1:
@@ -612,6 +659,15 @@ def check(run):
             run.violation("atimes:out-of-bounds:single-point-periodic-dimension",
                           "atimes indexes its arrays outside the grid when a periodic dimension has a single point: %s [case: %s]" % (go[0].split("|", 1)[1], l[:300]),
                           {"kind": "unit", "case": l, "impl": go[0]})
+        elif not go[0].startswith("REFUSED"):
+            run.violation("atimes:out-of-bounds:single-point-periodic-dimension", "a PMF grid with one point in a periodic dimension was not refused (the sentinels did not catch an access outside on this shape): %s [case: %s]" % (go[0][:200], l[:300]),
+                          {"kind": "unit", "case": l, "impl": go[0]})
+        else:
+            if "input" not in go[0] or "iter=0" not in go[0] or "data_untouched=1" not in go[0] or "err=-1" not in go[0]:
+                run.violation("integrate:refused-grid-touched", "a refused grid must give an input error and leave everything untouched: %s [case: %s]" % (go[0], l[:300]),
+                              {"kind": "unit", "case": l, "impl": go[0]})
+            if not (gm and gm[0].startswith("REFUSED")):
+                run.mismatch("refused-shape", l, go[0], gm[0] if gm else None)
 
     # ---------------- numerical experiment: second-order convergence to a smooth surface (up to a constant)
     conv_experiment(run, unit, r, quick)
@@ -677,21 +733,35 @@ def gen_e2e(r, k):
         w = r.choice([0.5, 0.25, 1.0])
         n = r.randint(2, 4) if nd < 3 else r.randint(2, 3)
         lo = r.choice([0.0, -1.0, 0.5])
+        if nd == 3:
+            w = [0.5, 0.25, 1.0][(d + k) % 3]      # three different widths in every 3-D scenario
         vars_.append({"per": per, "w": w, "n": n, "lo": lo, "hi": lo + n * w})
     steps = []
     for _ in range(r.randint(8, 30)):
         z = [v["lo"] + (r.randrange(v["n"]) + r.choice([0.25, 0.5, 0.75])) * v["w"] for v in vars_]
         e = [V.dyadic(r, -8, 8) for _ in range(nd)]
         steps.append((z, e))
-    return {"id": "e2e%d" % k, "nd": nd, "vars": vars_, "steps": steps, "full": r.choice([1, 2, 4]), "apply": r.random() < 0.5}
+    ext = r.random() < 0.35          # extended-Lagrangian variables: CZAR estimator, <prefix>.czar.grad / .czar.pmf
+    # files written by the outputFreq schedule during the run (no post_run) instead of at the end
+    freq = r.random() < 0.3
+    if freq:
+        nst = len(steps) - (len(steps) % 4)
+        steps = steps[:max(4, nst)]
+    return {"id": "e2e%d" % k, "nd": nd, "vars": vars_, "steps": steps, "full": r.choice([1, 2, 4]), "apply": r.random() < 0.5,
+            "ext": ext, "freq": freq}
 
 
 def e2e_scenario(c):
     nd = c["nd"]
-    L = ["natoms %d" % nd, "samestep 1", "includecv 1", "prefix %s" % c["id"], "new", "config EOF"]
+    L = ["natoms %d" % nd, "samestep 1", "includecv 1", "temperature 300", "dt 1", "prefix %s" % c["id"]]
+    if c.get("freq"):
+        L += ["restartfreq 4"]
+    L += ["new", "config EOF"]
     for d, v in enumerate(c["vars"]):
-        L += ["colvar {", "  name v%d" % d, "  lowerBoundary %r" % v["lo"], "  upperBoundary %r" % v["hi"], "  width %r" % v["w"],
-              "  distanceZ {", "    main { atomNumbers %d }" % (d + 1), "    ref { dummyAtom (0,0,0) }", "    axis (0,0,1)",
+        L += ["colvar {", "  name v%d" % d, "  lowerBoundary %r" % v["lo"], "  upperBoundary %r" % v["hi"], "  width %r" % v["w"]]
+        if c.get("ext"):
+            L += ["  extendedLagrangian on", "  extendedFluctuation %r" % (0.5 * v["w"]), "  extendedTimeConstant 20", "  extendedLangevinDamping 0"]
+        L += ["  distanceZ {", "    main { atomNumbers %d }" % (d + 1), "    ref { dummyAtom (0,0,0) }", "    axis (0,0,1)",
               "    oneSiteTotalForce on"]
         if v["per"]:
             L += ["    period %r" % (v["hi"] - v["lo"]), "    wrapAround %r" % (0.5 * (v["hi"] + v["lo"]))]
@@ -703,7 +773,8 @@ def e2e_scenario(c):
             L.append("pos %d 0 0 %s" % (d + 1, V.hexf(z[d])))
             L.append("eforce %d 0 0 %s" % (d + 1, V.hexf(e[d])))
         L.append("step")
-    L.append("postrun")
+    if not c.get("freq"):
+        L.append("postrun")
     return L
 
 
@@ -715,8 +786,15 @@ def e2e(run, r, quick):
     exe = V.build_prog("vsim", ["harness/vsim_main.cpp"])
     d = V.scratch("C16")
     ncase = 8 if quick else 80
-    for k in range(ncase):
+    for k in range(ncase + 1):
         c = gen_e2e(r, k)
+        degenerate = (k == ncase)
+        if degenerate:
+            # a periodic variable whose single bin spans its period, in 2-D: the PMF grid has one point along it;
+            # the bias must be refused with an input error (integration is on by default)
+            c["nd"] = 2
+            c["vars"] = [{"per": True, "w": 2.0, "n": 1, "lo": 0.0, "hi": 2.0}, {"per": False, "w": 0.5, "n": 3, "lo": -1.0, "hi": 0.5}]
+            c["steps"] = [([0.25 + 0.5 * (i % 3), -0.75 + 0.5 * (i % 3)], [1.0 + i, -2.0]) for i in range(6)]
         sc = os.path.join(d, c["id"] + ".scn")
         for ext in (".pmf", ".grad", ".count"):
             try:
@@ -729,77 +807,91 @@ def e2e(run, r, quick):
         rep = {"kind": "e2e", "scenario": e2e_scenario(c)}
         run.count("e2e:" + json.dumps(c, sort_keys=True), True)
         run.dist("e2e:nd=%d,per=%s" % (c["nd"], "".join(str(int(v["per"])) for v in c["vars"])))
-        if rc != 0 or "POSTRUN err=ok" not in o or "CONFIG err=ok" not in o:
+        if degenerate:
+            run.dist("e2e:single-point-periodic-dimension")
+            if "CONFIG err=ok" in o:
+                run.violation("e2e:single-point-periodic-dimension-accepted", "abf on 2 variables with integration and a periodic variable whose width is its period was accepted: "
+                              "the Poisson solver indexes outside its arrays on that grid", rep)
+            elif "CONFIG err=input" not in o:
+                run.violation("e2e:run", "unexpected outcome for the single-bin periodic configuration: %s" % o[-300:], rep)
+            continue
+        if rc != 0 or ("POSTRUN err=ok" not in o and not c.get("freq")) or "CONFIG err=ok" not in o:
             run.violation("e2e:run", "the ABF scenario did not run to the end (rc=%d): %s" % (rc, (o + e)[-300:]), rep)
             continue
-        try:
-            nd, gdims, grows = read_multicol(os.path.join(d, c["id"] + ".grad"))
-            _, pdims, prows = read_multicol(os.path.join(d, c["id"] + ".pmf"))
-            _, cdims, crows = read_multicol(os.path.join(d, c["id"] + ".count"))
-        except (OSError, ValueError, IndexError) as ex:
-            run.violation("e2e:files", "missing or unreadable .grad/.pmf/.count after the run: %s" % ex, rep)
-            continue
-        per = [g[3] for g in gdims]
-        nxg = [g[2] for g in gdims]
-        w = [g[1] for g in gdims]
-        nxp = [n if p else n + 1 for n, p in zip(nxg, per)]
-        pm = [row[nd] for row in prows]
-        if [p[2] for p in pdims] != nxp or len(pm) != len(list(itertools.product(*[range(n) for n in nxp]))):
-            run.violation("e2e:pmf-shape", "PMF grid %s for gradient grid %s periodic %s" % ([p[2] for p in pdims], nxg, per), rep)
-            continue
-        if any(abs(pd[0] - (gd[0] - 0.5 * gd[1])) > 1e-12 for pd, gd in zip(pdims, gdims)):
-            run.violation("e2e:pmf-origin", "PMF grid is not shifted by half a bin: %s vs %s" % (pdims, gdims), rep)
-        grad = {}
-        for row, ix in zip(grows, itertools.product(*[range(n) for n in nxg])):
-            grad[ix] = row[nd:2 * nd]
-        nsamp = sum(int(row[nd]) for row in crows)
-        if not finite(pm) or not all(finite(v) for v in grad.values()):
-            run.violation("e2e:not-finite", "the written PMF or gradients contain non-finite values [%s]" % c["id"], rep)
-            continue
-        if abs(min(pm)) > 1e-12:
-            run.violation("e2e:minimum", "the written PMF has minimum %r instead of 0" % min(pm), rep)
-        if nd == 1:
-            g = [grad[(i,)][0] for i in range(nxg[0])]
-            corr = sum(g) / len(g) if per[0] else 0.0
-            acc, exp = 0.0, []
-            for i in range(nxp[0]):
-                exp.append(acc)
-                if i < nxg[0]:
-                    acc += (g[i] - corr) * w[0]
-            mn = min(exp)
-            if any(not close(a, b - mn, 1e-10) for a, b in zip(pm, exp)):
-                run.violation("e2e:pmf-1d", "written 1-D PMF %s is not the cumulative sum %s of the written gradients" % (pm, [b - mn for b in exp]), rep)
-            if per[0] and not close(acc, 0.0, 1e-10):
-                run.violation("e2e:pmf-1d-periodic", "cumulative sum over the period is %r" % acc, rep)
-            continue
-        def gr(ix):
-            q = []
-            for dd in range(nd):
-                i = ix[dd]
-                if per[dd]:
-                    i %= nxg[dd]
-                elif i < 0 or i >= nxg[dd]:
-                    return [0.0] * nd
-                q.append(i)
-            return grad[tuple(q)]
-        bvec = []
-        for p in itertools.product(*[range(n) for n in nxp]):
-            tot = 0.0
-            for dd in range(nd):
-                acc = 0.0
-                for off in itertools.product(*[(-1, 0)] * nd):
-                    gg = gr([p[q] + off[q] for q in range(nd)])
-                    acc += gg[dd] if off[dd] == 0 else -gg[dd]
-                tot += acc / w[dd]
-            bvec.append(tot / (2 ** (nd - 1)))
-        Ax = [float(v) for v in lap_oracle({"nd": nd, "per": per, "nxp": nxp, "w": w}, pm)]
-        bn = math.sqrt(sum(v * v for v in bvec))
-        rn = math.sqrt(sum((u - v) ** 2 for u, v in zip(Ax, bvec)))
-        if not (rn <= 1e-4 * bn + 1e-10):
-            run.violation("e2e:poisson", "written PMF: |Laplacian(pmf) - divergence(written gradients)| = %g > 1e-4 |divergence| = %g (%d samples) [%s]"
-                          % (rn, 1e-4 * bn, nsamp, c["id"]), rep)
-        if k == 0:
-            run.sample({"e2e_scenario": e2e_scenario(c)[:40], "pmf": pm[:12]})
+        pairs = [(".grad", ".pmf", ".count")] + ([(".czar.grad", ".czar.pmf", ".zcount")] if c.get("ext") else [])
+        if c.get("ext"):
+            run.dist("e2e:extended-lagrangian-czar")
+        if c.get("freq"):
+            run.dist("e2e:written-by-outputFreq")
+        for gext, pext, cext in pairs:
+            try:
+                nd, gdims, grows = read_multicol(os.path.join(d, c["id"] + gext))
+                _, pdims, prows = read_multicol(os.path.join(d, c["id"] + pext))
+                _, cdims, crows = read_multicol(os.path.join(d, c["id"] + cext))
+            except (OSError, ValueError, IndexError) as ex:
+                run.violation("e2e:files", "missing or unreadable %s/%s/%s after the run: %s" % (gext, pext, cext, ex), rep)
+                continue
+            per = [g[3] for g in gdims]
+            nxg = [g[2] for g in gdims]
+            w = [g[1] for g in gdims]
+            nxp = [n if p else n + 1 for n, p in zip(nxg, per)]
+            pm = [row[nd] for row in prows]
+            if [p[2] for p in pdims] != nxp or len(pm) != len(list(itertools.product(*[range(n) for n in nxp]))):
+                run.violation("e2e:pmf-shape", "PMF grid %s for gradient grid %s periodic %s" % ([p[2] for p in pdims], nxg, per), rep)
+                continue
+            if any(abs(pd[0] - (gd[0] - 0.5 * gd[1])) > 1e-12 for pd, gd in zip(pdims, gdims)):
+                run.violation("e2e:pmf-origin", "PMF grid is not shifted by half a bin: %s vs %s" % (pdims, gdims), rep)
+            grad = {}
+            for row, ix in zip(grows, itertools.product(*[range(n) for n in nxg])):
+                grad[ix] = row[nd:2 * nd]
+            nsamp = sum(int(row[nd]) for row in crows)
+            if not finite(pm) or not all(finite(v) for v in grad.values()):
+                run.violation("e2e:not-finite", "the written PMF or gradients contain non-finite values [%s]" % c["id"], rep)
+                continue
+            if abs(min(pm)) > 1e-12:
+                run.violation("e2e:minimum", "the written PMF has minimum %r instead of 0" % min(pm), rep)
+            if nd == 1:
+                g = [grad[(i,)][0] for i in range(nxg[0])]
+                corr = sum(g) / len(g) if per[0] else 0.0
+                acc, exp = 0.0, []
+                for i in range(nxp[0]):
+                    exp.append(acc)
+                    if i < nxg[0]:
+                        acc += (g[i] - corr) * w[0]
+                mn = min(exp)
+                if any(not close(a, b - mn, 1e-10) for a, b in zip(pm, exp)):
+                    run.violation("e2e:pmf-1d", "written 1-D PMF %s is not the cumulative sum %s of the written gradients" % (pm, [b - mn for b in exp]), rep)
+                if per[0] and not close(acc, 0.0, 1e-10):
+                    run.violation("e2e:pmf-1d-periodic", "cumulative sum over the period is %r" % acc, rep)
+                continue
+            def gr(ix):
+                q = []
+                for dd in range(nd):
+                    i = ix[dd]
+                    if per[dd]:
+                        i %= nxg[dd]
+                    elif i < 0 or i >= nxg[dd]:
+                        return [0.0] * nd
+                    q.append(i)
+                return grad[tuple(q)]
+            bvec = []
+            for p in itertools.product(*[range(n) for n in nxp]):
+                tot = 0.0
+                for dd in range(nd):
+                    acc = 0.0
+                    for off in itertools.product(*[(-1, 0)] * nd):
+                        gg = gr([p[q] + off[q] for q in range(nd)])
+                        acc += gg[dd] if off[dd] == 0 else -gg[dd]
+                    tot += acc / w[dd]
+                bvec.append(tot / (2 ** (nd - 1)))
+            Ax = [float(v) for v in lap_oracle({"nd": nd, "per": per, "nxp": nxp, "w": w}, pm)]
+            bn = math.sqrt(sum(v * v for v in bvec))
+            rn = math.sqrt(sum((u - v) ** 2 for u, v in zip(Ax, bvec)))
+            if not (rn <= 1e-4 * bn + 1e-10):
+                run.violation("e2e:poisson", "written PMF: |Laplacian(pmf) - divergence(written gradients)| = %g > 1e-4 |divergence| = %g (%d samples) [%s]"
+                              % (rn, 1e-4 * bn, nsamp, c["id"] + pext), rep)
+            if k == 0:
+                run.sample({"e2e_scenario": e2e_scenario(c)[:40], "pmf": pm[:12]})
 
 
 def replay(path):
